@@ -29,6 +29,7 @@ import (
 	"time"
 
 	"github.com/cloudwego/eino/compose"
+	"github.com/cloudwego/eino/schema"
 
 	"verif/harness/lib"
 )
@@ -41,8 +42,10 @@ const (
 
 type Node struct {
 	ID    int   `json:"id"`
-	Preds []int `json:"preds"` // increasing; 0 = START
-	Fail  int   `json:"fail,omitempty"` // 0 ok, 1 error, 2 panic, 3 the state post-handler returns an error, 4 the state pre-handler returns an error (outside the Coq models)
+	Preds []int `json:"preds"` // increasing; 0 = START; ordinary edges (data and control)
+	Ctl   []int `json:"ctl,omitempty"` // eager: control-only predecessors (WorkflowNode.AddDependency)
+	Dat   []int `json:"dat,omitempty"` // eager: data-only predecessors (AddInputWithOptions(.., WithNoDirectDependency()))
+	Fail  int   `json:"fail,omitempty"` // 0 ok, 1 error, 2 panic, 3 the state post-handler returns an error, 4 the state pre-handler returns an error (submit fails before the step is started), 5 (batch modes) the body cancels the context of the run and succeeds
 	Pre   bool  `json:"pre,omitempty"`  // the node has a state pre-handler (taskManager.submit runs it: preProcessor)
 	Post  bool  `json:"post,omitempty"` // the node has a state post-handler (taskManager.waitOne runs it: postProcessor)
 	Slow  bool  `json:"slow,omitempty"` // body sleeps 25-40 ms (eager: widen the return window)
@@ -61,7 +64,7 @@ type Case struct {
 	Mode     string   `json:"mode"`  // pregel | dag | eager
 	Nodes    []Node   `json:"nodes"` // layered order; the last one is END (id 1)
 	Branches []Branch `json:"branches,omitempty"`
-	Entry    string   `json:"entry,omitempty"` // "" = Invoke; "stream" = Stream, the chunks merged by key
+	Entry    string   `json:"entry,omitempty"` // "" = Invoke; "stream" = Stream, the chunks merged by key; "collect" / "transform" = the same two with the input handed in as a one-chunk stream
 	MaxSteps int      `json:"max_steps,omitempty"` // pregel only: compose.WithMaxRunSteps; > 0 marks a case whose graph may have cycles (a node may run in several steps)
 	Seeds    []uint64 `json:"seeds"` // one run per delay seed
 	Traced   int      `json:"traced"` // the first Traced runs record the protocol trace
@@ -139,6 +142,7 @@ type runState struct {
 	pre    []int32 // per node id: calls of its state pre-handler
 	post   []int32 // per node id: calls of its state post-handler
 	postNil int32  // post-handler calls that were handed a nil output (the execution had failed)
+	cancel context.CancelFunc // cancels the context of this run (behaviour 5 of a node)
 }
 
 // hstate is the local state of a graph whose nodes carry state handlers
@@ -153,7 +157,8 @@ type runObs struct {
 	Running []int    `json:"running,omitempty"` // bodies started and not finished at return
 	events  []compose.VerifC03Event
 	spawned int
-	collect int
+	collect int // completed collector sections (unlockC): a task counts as collected for the protocol model after it
+	recvd   int // tasks the collector received from the hand-off channel
 	wd      time.Duration
 	proto   string // "" or what is wrong with the submit/collect bookkeeping seen in the trace
 	handler string // "" or what is wrong with the calls of the state handlers (pre/post processors)
@@ -211,6 +216,10 @@ func (b *built) body(n *Node) func(ctx context.Context, in map[string]any) (map[
 			return nil, errors.New("node failure")
 		case 2:
 			panic("node panic")
+		case 5:
+			// the run is cancelled from inside a running step: the run loop must still collect the whole
+			// step before it returns the cancellation (batch mode)
+			rs.cancel()
 		}
 		return map[string]any{field(n.ID): in}, nil
 	}
@@ -252,6 +261,22 @@ func (b *built) nodeOpts(n *Node) []compose.GraphAddNodeOpt {
 		}))
 	}
 	return opts
+}
+
+// allPreds: the predecessors by an edge of any kind
+func (n *Node) allPreds() []int {
+	if len(n.Ctl) == 0 && len(n.Dat) == 0 {
+		return n.Preds
+	}
+	return append(append(append([]int(nil), n.Preds...), n.Ctl...), n.Dat...)
+}
+
+func (c *Case) specialEdges() (ctl, dat int) {
+	for _, n := range c.Nodes {
+		ctl += len(n.Ctl)
+		dat += len(n.Dat)
+	}
+	return
 }
 
 func (c *Case) hasHandlers() bool {
@@ -337,6 +362,12 @@ func build(c *Case) *built {
 				for _, p := range n.Preds {
 					wn.AddInput(key(p), compose.MapFields(field(p), field(p)))
 				}
+				for _, p := range n.Ctl {
+					wn.AddDependency(key(p))
+				}
+				for _, p := range n.Dat {
+					wn.AddInputWithOptions(key(p), []*compose.FieldMapping{compose.MapFields(field(p), field(p))}, compose.WithNoDirectDependency())
+				}
 			}
 			for _, br := range c.Branches {
 				wf.AddBranch(key(br.From), branchOf(br))
@@ -376,6 +407,9 @@ func (b *built) once(seed uint64, traced bool) *runObs {
 	rs := &runState{seed: seed, state: make([]int32, b.maxID+1), starts: make([]int32, b.maxID+1), logMu: make(chan struct{}, 1),
 		pre: make([]int32, b.maxID+1), post: make([]int32, b.maxID+1)}
 	rs.logMu <- struct{}{}
+	runCtx, cancel := context.WithCancel(context.WithValue(context.Background(), rsKey{}, rs))
+	rs.cancel = cancel
+	defer cancel()
 	b.cur.Store(rs)
 	compose.VerifC03Begin(seed|1, traced)
 	type ret struct {
@@ -387,7 +421,7 @@ func (b *built) once(seed uint64, traced bool) *runObs {
 	go func() {
 		var r ret
 		r.pan = lib.Recover(func() {
-			r.out, r.err = b.run(context.WithValue(context.Background(), rsKey{}, rs), map[string]any{"in": map[string]any{}})
+			r.out, r.err = b.run(runCtx, map[string]any{"in": map[string]any{}})
 		})
 		ch <- r
 	}()
@@ -476,6 +510,7 @@ func (b *built) once(seed uint64, traced bool) *runObs {
 					}
 				}
 				got[e.Key]++
+				o.recvd++
 				if got[e.Key] > sub[e.Key] && o.proto == "" {
 					if sub[e.Key] == 0 {
 						o.proto = "task " + e.Key + " was collected without having been submitted"
@@ -689,7 +724,11 @@ func (engine) Generate(r *lib.Rng, tier string, i int) any {
 	// Half of the two-branch cases are "contested": both branches (different sources of one layer)
 	// have the same node among their ends and neither selects it, and the first source also has a
 	// direct edge to it - the node is triggered by an edge and discarded by branches at once.
-	if L >= 2 && r.Chance(1, 5) {
+	brNum, brDen := 1, 5
+	if c.Mode == "eager" {
+		brNum, brDen = 1, 3 // skip propagation and the order of skip / ready reports matter in eager mode
+	}
+	if L >= 2 && r.Chance(brNum, brDen) {
 		nb := r.Range(1, 2)
 		used := map[int]bool{}
 		contested := -1
@@ -713,13 +752,16 @@ func (engine) Generate(r *lib.Rng, tier string, i int) any {
 					sel = append(sel, e)
 				}
 			}
-			if c.Mode != "pregel" && nb == 2 && r.Chance(1, 2) || contested >= 0 {
+			if c.Mode != "pregel" && nb == 2 && (r.Chance(1, 2) || c.Mode == "eager" && r.Chance(1, 3)) || contested >= 0 {
 				if contested < 0 {
 					contested = ends[r.Intn(len(ends))]
 					if r.Chance(2, 3) {
 						setPreds(c, contested, []int{from}) // the edge from the first source is its only edge
 					} else {
 						addPred(c, contested, from) // direct edge from the first source
+					}
+					if c.Mode == "eager" && r.Chance(1, 2) {
+						makeCtlOnly(c, contested, from) // ... a control-only edge (AddDependency)
 					}
 				} else if !contains(ends, contested) {
 					ends = sortInts(append(ends, contested))
@@ -730,6 +772,44 @@ func (engine) Generate(r *lib.Rng, tier string, i int) any {
 				sel = ends[:1]
 			}
 			c.Branches = append(c.Branches, Branch{From: from, Ends: ends, Sel: sel})
+		}
+	}
+	// Workflows, one in three: the other two kinds of edges. Every edge that does not come from START is
+	// turned into a control-only edge (AddDependency: the successor waits for the node and gets nothing
+	// from it) one time in six; one or two nodes get a data-only input (WithNoDirectDependency) from a
+	// node that precedes them by a control path of two or more edges (as the documentation of the
+	// option demands); END may read one of several predecessors by a data-only edge.
+	if c.Mode == "eager" && r.Chance(1, 3) {
+		for k := range c.Nodes {
+			n := &c.Nodes[k]
+			if n.ID == idEnd {
+				continue
+			}
+			for _, p := range append([]int(nil), n.Preds...) {
+				if p != idStart && r.Chance(1, 6) {
+					makeCtlOnly(c, n.ID, p)
+				}
+			}
+		}
+		for k := r.Range(0, 2); k > 0; k-- {
+			n := &c.Nodes[r.Intn(len(c.Nodes))]
+			var cand []int
+			for id := range ctlAncestors(c, n.ID) {
+				if id != idStart && !contains(n.Preds, id) && !contains(n.Ctl, id) && !contains(n.Dat, id) {
+					cand = append(cand, id)
+				}
+			}
+			sort.Ints(cand)
+			if len(cand) > 0 {
+				n.Dat = sortInts(append(n.Dat, cand[r.Intn(len(cand))]))
+			}
+		}
+		if end := &c.Nodes[len(c.Nodes)-1]; len(end.Preds) >= 2 && r.Chance(1, 4) {
+			p := end.Preds[r.Intn(len(end.Preds))]
+			if anc := ctlAncestors(c, idEnd); anc[p] && hasIndirectPath(c, p, idEnd) {
+				end.Preds = without(end.Preds, p)
+				end.Dat = sortInts(append(end.Dat, p))
+			}
 		}
 	}
 	// any-predecessor graphs, one in three: a step limit and one or two back edges (a node of a later or
@@ -824,6 +904,37 @@ func (engine) Generate(r *lib.Rng, tier string, i int) any {
 			}
 		}
 	}
+	// batch modes, one case in eight (no cycles): a node whose body cancels the context of the run and then
+	// succeeds, in a layer that holds no predecessor of END (so END cannot become ready in the step that
+	// is cancelled: the run loop notices the cancellation at the top of its next iteration, after the
+	// whole step has been collected - for the order-side model this is a node whose failure is seen
+	// once the step is complete, behaviour 3). An eager run notices a cancellation whenever its loop
+	// comes round, which is timing: not generated.
+	if c.Mode != "eager" && c.MaxSteps == 0 && r.Chance(1, 8) {
+		endPred := map[int]bool{}
+		for _, p := range c.Nodes[len(c.Nodes)-1].Preds {
+			endPred[p] = true
+		}
+		var cand []int
+		for _, layer := range layers {
+			ok := true
+			for _, id := range layer {
+				if endPred[id] {
+					ok = false
+				}
+			}
+			if ok {
+				for _, id := range layer {
+					if nd := nodeOf(c, id); nd != nil && nd.Fail == 0 {
+						cand = append(cand, id)
+					}
+				}
+			}
+		}
+		if len(cand) > 0 {
+			setFail(c, cand[r.Intn(len(cand))], 5)
+		}
+	}
 	// eager: a slow node that does not feed END (the F-C03 window)
 	if c.Mode == "eager" && r.Chance(1, 3) {
 		var cand []int
@@ -841,8 +952,13 @@ func (engine) Generate(r *lib.Rng, tier string, i int) any {
 			}
 		}
 	}
-	if r.Chance(1, 4) {
+	switch r.Intn(8) {
+	case 0, 1:
 		c.Entry = "stream"
+	case 2:
+		c.Entry = "transform"
+	case 3:
+		c.Entry = "collect"
 	}
 	for k := 0; k < nseeds; k++ {
 		c.Seeds = append(c.Seeds, r.U64()>>1)
@@ -871,6 +987,55 @@ func addPred(c *Case, id, p int) {
 	}
 }
 
+// makeCtlOnly turns the ordinary edge p -> id into a control-only edge
+func makeCtlOnly(c *Case, id, p int) {
+	if n := nodeOf(c, id); n != nil && contains(n.Preds, p) {
+		n.Preds = without(n.Preds, p)
+		n.Ctl = sortInts(append(n.Ctl, p))
+	}
+}
+
+// ctlAncestors: the nodes from which id is reached by control edges (ordinary or control-only) and
+// branches, id itself excluded
+func ctlAncestors(c *Case, id int) map[int]bool {
+	anc := map[int]bool{}
+	work := []int{id}
+	for len(work) > 0 {
+		x := work[0]
+		work = work[1:]
+		var ps []int
+		if n := nodeOf(c, x); n != nil {
+			ps = append(append(ps, n.Preds...), n.Ctl...)
+		}
+		for _, br := range c.Branches {
+			if contains(br.Ends, x) {
+				ps = append(ps, br.From)
+			}
+		}
+		for _, p := range ps {
+			if !anc[p] {
+				anc[p] = true
+				work = append(work, p)
+			}
+		}
+	}
+	return anc
+}
+
+// hasIndirectPath: p reaches id by control edges through at least one other node
+func hasIndirectPath(c *Case, p, id int) bool {
+	n := nodeOf(c, id)
+	if n == nil {
+		return false
+	}
+	for _, q := range append(append([]int(nil), n.Preds...), n.Ctl...) {
+		if q != p && (ctlAncestors(c, q)[p]) {
+			return true
+		}
+	}
+	return false
+}
+
 func setPreds(c *Case, id int, ps []int) {
 	for k := range c.Nodes {
 		if c.Nodes[k].ID == id {
@@ -887,6 +1052,15 @@ func without(xs []int, x int) []int {
 		}
 	}
 	return out
+}
+
+func nodeOf(c *Case, id int) *Node {
+	for k := range c.Nodes {
+		if c.Nodes[k].ID == id {
+			return &c.Nodes[k]
+		}
+	}
+	return nil
 }
 
 func setFail(c *Case, id, kind int) {
@@ -926,7 +1100,7 @@ func build0(c *Case) map[int]bool {
 		for i := range c.Nodes {
 			n := &c.Nodes[i]
 			if anc[n.ID] {
-				for _, p := range n.Preds {
+				for _, p := range n.allPreds() {
 					if !anc[p] {
 						anc[p] = true
 						changed = true
@@ -949,11 +1123,23 @@ func build0(c *Case) map[int]bool {
 // entryOf: the public entry point the case goes through. Stream returns a stream of maps with
 // disjoint keys (one chunk per predecessor of END); the harness merges them into one map.
 func entryOf(c *Case, r compose.Runnable[map[string]any, map[string]any]) func(ctx context.Context, in map[string]any) (map[string]any, error) {
-	if c.Entry != "stream" {
+	switch c.Entry {
+	case "collect":
+		return func(ctx context.Context, in map[string]any) (map[string]any, error) {
+			return r.Collect(ctx, schema.StreamReaderFromArray([]map[string]any{in}))
+		}
+	case "stream", "transform":
+	default:
 		return func(ctx context.Context, in map[string]any) (map[string]any, error) { return r.Invoke(ctx, in) }
 	}
 	return func(ctx context.Context, in map[string]any) (map[string]any, error) {
-		sr, err := r.Stream(ctx, in)
+		var sr *schema.StreamReader[map[string]any]
+		var err error
+		if c.Entry == "transform" {
+			sr, err = r.Transform(ctx, schema.StreamReaderFromArray([]map[string]any{in}))
+		} else {
+			sr, err = r.Stream(ctx, in)
+		}
 		if err != nil {
 			return nil, err
 		}
@@ -1111,7 +1297,13 @@ func (c *Case) coqGraph() string {
 		for j, p := range n.Preds {
 			ps[j] = fmt.Sprint(p)
 		}
-		s[i] = fmt.Sprintf("mkn %d [%s] %d", n.ID, strings.Join(ps, ";"), n.Fail)
+		fail := n.Fail
+		if fail == 5 {
+			// a cancellation from inside a batch step is noticed after the step has been collected, like
+			// a failure of the node that is seen after the hand-off (behaviour 3 of the Coq models)
+			fail = 3
+		}
+		s[i] = fmt.Sprintf("mkn %d [%s] %d", n.ID, strings.Join(ps, ";"), fail)
 	}
 	return "[" + strings.Join(s, ";") + "]"
 }
@@ -1120,6 +1312,21 @@ func coqInts(xs []int) string {
 	s := make([]string, len(xs))
 	for i, x := range xs {
 		s[i] = fmt.Sprint(x)
+	}
+	return "[" + strings.Join(s, ";") + "]"
+}
+
+// coqEdges: the control-only / data-only edges as (target, source) pairs
+func (c *Case) coqEdges(dat bool) string {
+	var s []string
+	for _, n := range c.Nodes {
+		ps := n.Ctl
+		if dat {
+			ps = n.Dat
+		}
+		for _, p := range ps {
+			s = append(s, fmt.Sprintf("(%d,%d)", n.ID, p))
+		}
 	}
 	return "[" + strings.Join(s, ";") + "]"
 }
@@ -1200,8 +1407,8 @@ func (engine) Run(ci any) lib.Result {
 		width = len(c.Nodes) - 1
 	}
 	res.Tags = []string{"mode:" + c.Mode, fmt.Sprintf("nodes:%d", width)}
-	if c.Entry == "stream" {
-		res.Tags = append(res.Tags, "entry:stream")
+	if c.Entry != "" {
+		res.Tags = append(res.Tags, "entry:"+c.Entry)
 	} else {
 		res.Tags = append(res.Tags, "entry:invoke")
 	}
@@ -1273,8 +1480,14 @@ func (engine) Run(ci any) lib.Result {
 		if traced {
 			out.Traces++
 			out.Events += len(o.events)
-			if c.Mode != "eager" && o.spawned != o.collect {
-				fail("uncollected", fmt.Sprintf("batch run returned with %d of %d submitted tasks collected", o.collect, o.spawned))
+			if c.Mode != "eager" && o.spawned != o.recvd {
+				fail("uncollected", fmt.Sprintf("batch run returned with %d of %d submitted tasks collected", o.recvd, o.spawned))
+			}
+			if o.Class != "hang" && o.recvd != o.collect {
+				// the mechanism the property is anchored on: the collector receives one task and tops the
+				// one-slot channel up again under the mutex; a receive without that section leaves a task that
+				// was pushed while the slot was full on the overflow list with nobody to hand it over
+				fail("collector-top-up-skipped", fmt.Sprintf("the collector received %d task(s) but refilled the hand-off channel under the mutex only %d time(s): a finished task left on the overflow list is then never handed over", o.recvd, o.collect))
 			}
 			// the whole traced run: trace, outstanding tasks at the return, outcome, every execution started
 			traces = append(traces, fmt.Sprintf("mkrun %s %d%%nat (%s) %s", coqTrace(b, o.events), o.spawned-o.collect, o.coqOut(), coqLog(o.Log)))
@@ -1346,6 +1559,12 @@ func (engine) Run(ci any) lib.Result {
 	if failNonAnc {
 		res.Tags = append(res.Tags, "failing-non-ancestor")
 	}
+	for _, n := range c.Nodes {
+		if n.Fail == 5 {
+			res.Tags = append(res.Tags, "cancel:in-step")
+			break
+		}
+	}
 	if c.hasHandlers() {
 		res.Tags = append(res.Tags, "handlers:yes")
 		for _, n := range c.Nodes {
@@ -1363,23 +1582,30 @@ func (engine) Run(ci any) lib.Result {
 	for i, d := range distinct {
 		obsS[i] = d.coq()
 	}
-	switch {
-	case b.preFail:
-		// a failing state pre-handler is outside the order-side models: only the protocol traces go to Coq
-		res.CoqTerm = fmt.Sprintf("mkcase %d 0%%nat [] [] [%s] [%s]", modeN, strings.Join(obsS, ";"), strings.Join(traces, ";\n  "))
+	if b.preFail {
+		// behaviour 4 of a node in the Coq models: submit fails before anything of the step is started
 		res.Tags = append(res.Tags, "failing:pre-handler")
-	case len(c.Branches) == 0:
-		res.CoqTerm = fmt.Sprintf("mkcase %d %d%%nat %s [] [%s] [%s]", modeN, c.MaxSteps, c.coqGraph(), strings.Join(obsS, ";"), strings.Join(traces, ";\n  "))
+	}
+	nCtl, nDat := c.specialEdges()
+	if nCtl > 0 {
+		res.Tags = append(res.Tags, "edges:control-only")
+	}
+	if nDat > 0 {
+		res.Tags = append(res.Tags, "edges:data-only")
+	}
+	switch {
+	case len(c.Branches) == 0 && nCtl+nDat == 0:
+		res.CoqTerm = fmt.Sprintf("mkcase %d %d%%nat %s [] [] [] [%s] [%s]", modeN, c.MaxSteps, c.coqGraph(), strings.Join(obsS, ";"), strings.Join(traces, ";\n  "))
 		if c.MaxSteps > 0 {
 			res.Tags = append(res.Tags, "cyclic:yes")
 		}
 	case c.Mode == "eager":
-		// Workflow with branches: Model/EagerSkip.v
-		res.CoqTerm = fmt.Sprintf("mkcase %d 0%%nat %s %s [%s] [%s]", modeN, c.coqGraph(), c.coqBranches(), strings.Join(obsS, ";"), strings.Join(traces, ";\n  "))
+		// Workflow with branches, control-only or data-only edges: Model/EagerSkip.v
+		res.CoqTerm = fmt.Sprintf("mkcase %d 0%%nat %s %s %s %s [%s] [%s]", modeN, c.coqGraph(), c.coqBranches(), c.coqEdges(false), c.coqEdges(true), strings.Join(obsS, ";"), strings.Join(traces, ";\n  "))
 		res.Tags = append(res.Tags, fmt.Sprintf("branches:%d", len(c.Branches)))
 	default:
 		// batch mode with branches is outside the order-side models: only the protocol traces go to Coq
-		res.CoqTerm = fmt.Sprintf("mkcase %d 0%%nat [] [] [%s] [%s]", modeN, strings.Join(obsS, ";"), strings.Join(traces, ";\n  "))
+		res.CoqTerm = fmt.Sprintf("mkcase %d 0%%nat [] [] [] [] [%s] [%s]", modeN, strings.Join(obsS, ";"), strings.Join(traces, ";\n  "))
 		res.Tags = append(res.Tags, fmt.Sprintf("branches:%d", len(c.Branches)))
 	}
 	return res
@@ -1421,7 +1647,7 @@ func parallelism(c *Case) int {
 	best := 0
 	for _, n := range c.Nodes {
 		d := 0
-		for _, p := range n.Preds {
+		for _, p := range n.allPreds() {
 			if depth[p]+1 > d {
 				d = depth[p] + 1
 			}
